@@ -44,6 +44,7 @@ PROBES = [
     "copy-checked",
     "exit-inside-active-except-handler",
     "write-outside-batch",
+    "batch-opened-without-do-deletes-argument",
 ]
 FAULTS = ["batch-abort", "batch-abort-base", "batch-abandoned-generator-exit", "second-party-write"]
 COMPONENTS = {
@@ -75,7 +76,8 @@ class AbortF(Exception):
 
 
 def _proc(scratch, do_deletes):
-    with scratch.batch_commit(do_deletes=do_deletes):
+    # do_deletes None: the client does not pass the argument at all (deletes not requested)
+    with (scratch.batch_commit() if do_deletes is None else scratch.batch_commit(do_deletes=do_deletes)):
         action = yield "open"
         while True:
             if action[0] == "exit":
@@ -149,7 +151,10 @@ class World:
         if self.gen is not None:
             return "skip"
         self.do_deletes = bool(cmd.get("dd"))
-        self.gen = _proc(self.scratch, self.do_deletes)
+        noarg = bool(cmd.get("noarg")) and not self.do_deletes
+        if noarg:
+            self.st.probe("batch-opened-without-do-deletes-argument")
+        self.gen = _proc(self.scratch, None if noarg else self.do_deletes)
         next(self.gen)
         self.pre = dict(self.db.raw())
         self.db.mon_frozen = True
@@ -386,7 +391,7 @@ def generate(rng):
     initial = [[hx(k), hx(rng.choice(vals))] for k in keys if rng.random() < 0.5]
     prefix = []
     for _ in range(rng.choice([0, 0, 1, 2])):
-        prefix.append({"op": "open", "dd": int(rng.random() < 0.5)})
+        prefix.append({"op": "open", "dd": int(rng.random() < 0.5), "noarg": int(rng.random() < 0.4)})
         prefix += gen_ops(rng, keys, vals, rng.randint(0, 6))
         prefix.append({"op": "exit", "how": rng.choice(["normal", "normal", "E", "B", "G", "F"])})
         if rng.random() < 0.5:
@@ -403,7 +408,7 @@ def generate(rng):
         ops = [({"op": "write", "k": hx(k), "v": hx(rng.choice(vals))} if rng.random() < 0.7 else {"op": "delete", "k": hx(k)}) for k in bulk]
     suffix = [{"op": "settle", "keys": [hx(k) for k in keys], "dd": int(rng.random() < 0.5)}]
     suffix += [c for c in gen_ops(rng, keys, vals, 3) if c["op"] in ("read", "contains")]
-    base = {"cfg": {"initial": initial, "store": rng.choice(["min", "min", "dict"])}, "prefix": prefix, "dd": dd, "ops": ops, "suffix": suffix}
+    base = {"cfg": {"initial": initial, "store": rng.choice(["min", "min", "dict"])}, "prefix": prefix, "dd": dd, "noarg": int(rng.random() < 0.4), "ops": ops, "suffix": suffix}
     # the client may be inside an except clause when it makes a call or leaves the block
     p_hdl = rng.choice([0.0, 0.0, 0.2, 0.5])
     if p_hdl:
@@ -416,7 +421,7 @@ def generate(rng):
 
 
 def variant(base, p, how):
-    cmds = list(base["prefix"]) + [{"op": "open", "dd": base["dd"]}] + list(base["ops"][:p]) + [dict({"op": "exit", "how": how}, **base.get("exit_extra", {}))] + list(base["suffix"])
+    cmds = list(base["prefix"]) + [{"op": "open", "dd": base["dd"], "noarg": base.get("noarg", 0)}] + list(base["ops"][:p]) + [dict({"op": "exit", "how": how}, **base.get("exit_extra", {}))] + list(base["suffix"])
     return {"prop": ID, "cfg": base["cfg"], "cmds": cmds}
 
 
